@@ -53,6 +53,16 @@ def untouched(repo: Repo, chk: Check) -> None:
             txt = fact.text
             if "TiledStridedLayoutAttr" in txt and ("not " in txt or "!=" in txt):
                 return fact
+        # the same said in one expression: `not any(.. for operand in op.operands)` / `all(not .. for ..)`
+        for fact in site.facts:
+            if fact.kind != "atom":
+                continue
+            q = norm.qnf(fact.expr)
+            if q is None or q[0] != "all" or q[3] or norm.match(T("$op.operands"), q[2], {"op": op}) is None:
+                continue
+            txt = ast.unparse(q[4])
+            if "TiledStridedLayoutAttr" in txt and ("not " in txt or "!=" in txt):
+                return fact
         return None
 
     # the operand stores themselves invalidate facts about op.operands: the guard must hold when the first
